@@ -128,7 +128,9 @@ def gen_value_forest(rng):
         k = rng.random()
         if k < 0.15:
             s = bytes(rng.choice(b"abc xyz_09\xc3\xa9\x7f\x01") for _ in range(rng.randint(0, 12)))
-            f = rng.choice(["string", "strp"] + (["line_strp"] if version >= 5 else []))
+            f = rng.choice(["string", "strp"] + (["line_strp", "strx", "strx1", "strx2", "strx3", "strx4"] if version >= 5 else []))
+            if f.startswith("strx") and b"\0" in s:
+                f = "string"
             d.attrs.append(("name", f, s)); exps.append(("name", ("str", s)))
         if k < 0.3:
             v = rng.random() < 0.5
@@ -163,7 +165,9 @@ def gen_value_forest(rng):
             d.attrs.append(("decl_line", f, v)); exps.append(("decl_line", ("uint", v)))
         if rng.random() < 0.3:
             v = rng.choice([0, 0x1000, (1 << 64) - 1, rng.getrandbits(47)])
-            d.attrs.append(("entry_pc", "addr", v)); exps.append(("entry_pc", ("addr", v)))
+            f = rng.choice(["addr"] + (["addrx", "addrx1", "addrx2", "addrx3", "addrx4"] if version >= 5 else []))
+            # DW_FORM_addrx (the ULEB128 one) is not among the forms at_value() knows: reported as an error today; were it decoded, then to this address
+            d.attrs.append(("entry_pc", f, v)); exps.append(("entry_pc", ("addr-or-error" if f == "addrx" else "addr", v)))
         if rng.random() < 0.3:
             t = rng.choice(zoo.dies)
             forms = ["ref2", "ref4", "ref8", "ref_udata", "ref_addr"] + (["ref1"] if t in zoo.dies[:3] else [])
@@ -227,9 +231,98 @@ def gen_value_forest(rng):
                 else:
                     runs.append([a, a + 1])
             add(d, [("ranges", ("aset", [tuple(r) for r in runs]))])
+    rnglists = b""
+    addr_prefill = []
+    if version >= 5:
+        # .debug_rnglists with an offset table: DW_FORM_rnglistx picks a list by index, DW_FORM_sec_offset by its section offset;
+        # entries of every kind (offset_pair relative to the unit's low_pc or to a base_address(x) entry, start_end, start_length, and the
+        # startx_* kinds through .debug_addr)
+        import struct
+        addr_prefill = [rng.choice([0x4000, 0x10000, 1 << 33]) + 0x100 * i for i in range(rng.randint(2, 5))]
+        rng.shuffle(addr_prefill)
+        lists = []
+        for _ in range(rng.randint(1, 5)):
+            base = 0x1000
+            model = set()
+            blob = bytearray()
+            for _ in range(rng.randint(0, 5)):
+                k = rng.random()
+                if k < 0.15:
+                    base = rng.choice([0, 0x2000, 1 << 40, 0x1000]); blob += bytes([5]) + struct.pack("<Q", base)
+                elif k < 0.25:
+                    i = rng.randrange(len(addr_prefill)); base = addr_prefill[i]; blob += bytes([1]) + dwgen.uleb(i)
+                elif k < 0.5:
+                    b = rng.randint(1, 0x300); e = b + rng.choice([0, 1, 2, 0x10, 0x40])
+                    blob += bytes([4]) + dwgen.uleb(b) + dwgen.uleb(e); model.update(range(base + b, base + e))
+                elif k < 0.65:
+                    b = rng.randint(1, 1 << 20); e = b + rng.choice([0, 1, 0x20])
+                    blob += bytes([6]) + struct.pack("<QQ", b, e); model.update(range(b, e))
+                elif k < 0.8:
+                    b = rng.randint(1, 1 << 20); n = rng.choice([0, 1, 0x20])
+                    blob += bytes([7]) + struct.pack("<Q", b) + dwgen.uleb(n); model.update(range(b, b + n))
+                elif k < 0.9:
+                    i = rng.randrange(len(addr_prefill)); n = rng.choice([0, 3, 0x20])
+                    blob += bytes([3]) + dwgen.uleb(i) + dwgen.uleb(n); model.update(range(addr_prefill[i], addr_prefill[i] + n))
+                else:
+                    i, j = rng.randrange(len(addr_prefill)), rng.randrange(len(addr_prefill))
+                    if not 0 <= addr_prefill[j] - addr_prefill[i] <= 0x1000:
+                        continue      # an entry that ends before it begins is not a range
+                    blob += bytes([2]) + dwgen.uleb(i) + dwgen.uleb(j); model.update(range(addr_prefill[i], addr_prefill[j]))
+            blob += bytes([0])
+            runs = []
+            for a in sorted(model):
+                if runs and runs[-1][1] == a:
+                    runs[-1][1] = a + 1
+                else:
+                    runs.append([a, a + 1])
+            lists.append((bytes(blob), [tuple(r) for r in runs]))
+        offs, pos = [], 4 * len(lists)
+        for blob, _ in lists:
+            offs.append(pos); pos += len(blob)
+        body = struct.pack("<HBBI", 5, 8, 0, len(lists)) + b"".join(struct.pack("<I", o) for o in offs) + b"".join(b for b, _ in lists)
+        rnglists = struct.pack("<I", len(body)) + body
+        for i, (blob, runs) in enumerate(lists):
+            for _ in range(rng.randint(1, 2)):
+                if rng.random() < 0.5:
+                    d = Die(rng.choice(["lexical_block", "subprogram", "inlined_subroutine"]), [("ranges", "rnglistx", i)])
+                else:
+                    d = Die(rng.choice(["lexical_block", "subprogram", "inlined_subroutine"]), [("ranges", "sec_offset", 12 + offs[i])])
+                add(d, [("ranges", ("aset", runs))])
+        root.attrs += [("str_offsets_base", "sec_offset", dwgen.STRX_BASE), ("addr_base", "sec_offset", dwgen.ADDRX_BASE), ("rnglists_base", "sec_offset", 12)]
+        expect[id(root)] = [("str_offsets_base", ("hex", dwgen.STRX_BASE)), ("addr_base", ("hex", dwgen.ADDRX_BASE)), ("rnglists_base", ("hex", 12))]
+    # --- DW_AT_macro_info: the unit's macro information, one value per stored entry (type, line or code, text or file number)
+    macinfo = b""
+    if rng.random() < 0.6:
+        ents = []
+        depth = 0
+        for _ in range(rng.randint(0, 8)):
+            k = rng.choice(["define", "undef", "start_file", "end_file", "vendor_ext"])
+            if k == "end_file" and depth == 0:
+                continue
+            txt = bytes(rng.choice(b"ABC_xyz 019()") for _ in range(rng.randint(1, 10)))
+            n = rng.choice([0, 1, 127, 128, 300, 70000])
+            if k == "define": ents.append((1, n, txt))
+            elif k == "undef": ents.append((2, n, txt))
+            elif k == "start_file": ents.append((3, n, rng.randint(0, 200))); depth += 1
+            elif k == "end_file": ents.append((4,)); depth -= 1
+            else: ents.append((255, n, txt))
+        ents += [(4,)] * depth
+        pad = bytes([1]) + dwgen.uleb(1) + b"unrelated 1\0" + bytes([0]) if rng.random() < 0.5 else b""    # another unit's entries first
+        macinfo = pad
+        for e in ents:
+            macinfo += bytes([e[0]])
+            if len(e) == 3:
+                macinfo += dwgen.uleb(e[1]) + (e[2] + b"\0" if isinstance(e[2], bytes) else dwgen.uleb(e[2]))
+        macinfo += bytes([0])
+        root.attrs.append(("macro_info", "sec_offset" if version >= 4 else "data4", len(pad)))
+        expect.setdefault(id(root), []).append(("macro_info", ("macinfo", ents)))
     root.children += dies
     u = Unit(root, version)
     f = Forest([u], ranges=bytes(ranges_blob))
+    f.debug_rnglists = rnglists
+    f.debug_macinfo = macinfo
+    f.addr_table = list(addr_prefill)
+    f.strx_table = [b"filler-%d" % i for i in range(rng.randint(1, 3))] if version >= 5 else []
     f.debug_line = b"\0" * 4096     # libdw checks section offsets against the section size
     return f, expect, dies, zoo
 
@@ -306,9 +399,9 @@ def value_ok(exp, vals, hdr, stderr):
     k = exp[0]
     if k == "error":
         return "expected an error, got values"    # handled by the caller (errors abort the query)
-    if len(vals) != 1:
+    if len(vals) != 1 and k != "macinfo":
         return "expected one value, got %d" % len(vals)
-    v = vals[0]
+    v = vals[0] if vals else None
     if k == "str":
         return "" if v["t"] == "s" and bytes.fromhex(v["v"]) == exp[1] else "string differs"
     if k == "die":
@@ -320,6 +413,26 @@ def value_ok(exp, vals, hdr, stderr):
             return "expected a location expression, got a value of type %s (%s)" % (v["t"], v.get("sh", "")[:60])
         got = [o[0] for o in v["ops"]]
         return "" if got == list(exp[1]) else "operations differ (got %s)" % got
+    if k == "macinfo":
+        names = {1: "DW_MACINFO_define", 2: "DW_MACINFO_undef", 3: "DW_MACINFO_start_file", 4: "DW_MACINFO_end_file", 255: "DW_MACINFO_vendor_ext"}
+        if len(vals) != len(exp[1]):
+            return "expected %d macro entries, got %d" % (len(exp[1]), len(vals))
+        for i, (e, v) in enumerate(zip(exp[1], vals)):
+            if v["t"] != "q" or len(v["v"]) != len(e):
+                return "macro entry %d: expected a sequence of %d, got %s" % (i, len(e), v.get("sh", "")[:60])
+            c = v["v"][0]
+            if c["t"] != "c" or int(c["v"]) != e[0] or c["f"] != names[e[0]]:
+                return "macro entry %d: type differs (got %s)" % (i, c.get("f"))
+            if len(e) == 3:
+                c1, c2 = v["v"][1], v["v"][2]
+                if c1["t"] != "c" or int(c1["v"]) != e[1]:
+                    return "macro entry %d: line/code differs (got %s)" % (i, c1.get("sh"))
+                if isinstance(e[2], bytes):
+                    if c2["t"] != "s" or bytes.fromhex(c2["v"]) != e[2]:
+                        return "macro entry %d: text differs" % i
+                elif c2["t"] != "c" or int(c2["v"]) != e[2]:
+                    return "macro entry %d: file number differs (got %s)" % (i, c2.get("sh"))
+        return ""
     if k == "aset":
         if v["t"] != "as":
             return "expected an address set"
@@ -376,6 +489,11 @@ def check_forest(d, f, expect, dies, path, tag, out, bad, hdr):
                     if v["t"] == "c" and not r["stderr"]:
                         bad.append(("uninterpretable-value-silently-decoded-as-a-number:%s" % name, dict(w, got=v["f"])))
                 continue
+            if kind == "addr-or-error":
+                if r["st"] == "error" and "DW_FORM_addrx" in (r.get("msg") or ""):
+                    out["expected_errors"] += 1
+                    continue
+                kind = "addr"; exp = ("addr",) + tuple(exp[1:])
             if r["st"] != "done" or len(r["res"]) != 1:
                 bad.append(("attribute-value-query-failed:%s" % name, dict(w, st=r["st"], msg=r.get("msg")))); continue
             vals = r["res"][0][-1]["v"]
